@@ -45,6 +45,8 @@ def generate(seed, tier, k):
     for _ in range(n):
         name = r.choice(ROUTINES)
         op = {"r": name, "dim": r.choice([1, 2, 3, 3]), "seed": r.randrange(1 << 30), "out": r.choice([None, None, "fresh", "dirty", "dirty", "strided", "fortran"]), "parallel": r.random() < 0.5, "bcast": r.choice([None, None, "A", "B", "c"])}
+        if r.random() < 0.3:
+            op["mag"] = r.choice([1e-12, 1e-9, 1e-6, 1e6, 1e9])
         if name == "dot":
             op["mode"] = list(r.choice(DOT_MODES))
         if name == "ddot":
@@ -100,7 +102,16 @@ def items(A, nt):
     return np.moveaxis(A, tuple(range(nt)), tuple(range(-nt, 0)))
 
 
+MAG = [1.0]  # magnitude of the operands of the current operation (set per operation)
+
+
 def tensor(rng, shape, batch, bcast=False, spd=False, near_identity=False, symmetric=False):
+    A = _tensor(rng, shape, batch, bcast, spd, near_identity, symmetric)
+    # tensors far from order one (other unit systems)
+    return A * MAG[0]
+
+
+def _tensor(rng, shape, batch, bcast=False, spd=False, near_identity=False, symmetric=False):
     tb = tuple(batch)
     if bcast == "all":
         tb = (1, 1)
@@ -153,13 +164,18 @@ class Machine:
             self.dirty[arr.shape] = arr
 
     def check_same(self, name, variant, got, plain, site):
-        ok, rel = close_exact_twin(got, plain, rtol=1e-12, atol=1e-13 * (1 + float(np.abs(plain).max()) if np.size(plain) else 1.0))
+        ok, rel = close_exact_twin(got, plain, rtol=1e-12, atol=1e-13 * (float(np.abs(plain).max()) if np.size(plain) else 0.0) + 1e-300)
         if not ok:
             self.V("flag-variant", f"{name}: variant {variant} differs from the plain call (rel {rel:.2e})", site=f"{name}[{variant}]")
         self.nvariants += 1
 
-    def check_ref(self, name, got, ref, site, rtol=1e-10):
-        ok, rel = close_exact_twin(np.asarray(got), np.asarray(ref), rtol=rtol, atol=1e-11 * (1 + (float(np.abs(ref).max()) if np.size(ref) else 0.0)))
+    def check_ref(self, name, got, ref, site, rtol=1e-10, scale=None):
+        # tolerances relative to the magnitude of the result (operands come in all magnitudes); a
+        # reference of zeros needs the natural scale of the quantity from the caller
+        base = float(np.abs(ref).max()) if np.size(ref) else 0.0
+        if scale is None and base == 0.0:
+            scale = 1.0
+        ok, rel = close_exact_twin(np.asarray(got), np.asarray(ref), rtol=rtol, atol=1e-11 * (base + (scale or 0.0)) + 1e-300)
         if not ok:
             self.V("definition", f"{name}: value differs from the definition (rel {rel:.2e}, shapes {np.shape(got)} vs {np.shape(ref)})", site=site)
 
@@ -171,6 +187,7 @@ class Machine:
     # -- one operation ---------------------------------------------------------------------
     def step(self, op, pool):
         name = op["r"]
+        MAG[0] = float(op.get("mag", 1.0))
         d = op["dim"]
         rng = np.random.default_rng(op["seed"])
         b = self.batch
@@ -231,7 +248,7 @@ class Machine:
                 plain[...] = -123.456
                 again = call(out=None, parallel=False)
                 self.log.count("variant:result-scribbled")
-                ok, rel = close_exact_twin(np.asarray(again), keep, rtol=1e-12, atol=1e-13 * (1 + float(np.abs(keep).max()) if keep.size else 1.0))
+                ok, rel = close_exact_twin(np.asarray(again), keep, rtol=1e-12, atol=1e-13 * (float(np.abs(keep).max()) if keep.size else 0.0) + 1e-300)
                 if not ok:
                     self.V("call-history", f"{name}: the same call returns different values after the caller overwrote the earlier result (rel {rel:.2e})", site=f"{name}.result-aliasing")
                 self.unchanged(name, operands, digs, "repeat")
@@ -352,7 +369,7 @@ class Machine:
                 # A v = lambda v per batch item
                 Av = np.einsum("ij...,ja...->ia...", A, vecs)
                 lv = vecs * vals[None]
-                self.check_ref(name, np.abs(Av - lv), np.zeros(Av.shape), site="eig.nonsymmetric.pairs", rtol=1e-9)
+                self.check_ref(name, np.abs(Av - lv), np.zeros(Av.shape), site="eig.nonsymmetric.pairs", rtol=1e-9, scale=1e2 * float(np.abs(A).max()) * float(np.abs(vecs).max()))
                 got = np.sort_complex(items(vals, 1))
             else:
                 got = np.sort_complex(items(fm.eigvals(A), 1))
